@@ -26,9 +26,104 @@ def klist(*atoms):
     return ListV(items=None, elem=key_tv("+".join(atoms)).but(origin=frozenset(atoms)), kind="list", order=(tuple(atoms), "same"))
 
 
+def _returns(fn_node):
+    return [r.value for r in ast.walk(fn_node) if isinstance(r, ast.Return) and r.value is not None]
+
+
+def _required_keys_exprs(cls):
+    """Normalised texts of what `required_keys` of `cls` returns (plus `self.required_keys` itself)."""
+    r = cls.lookup("required_keys")
+    out = {"self.required_keys"}
+    if r is not None:
+        out |= {norm_text(v) for v in _returns(r[1].node)}
+    return out
+
+
+def redundant_bypass(index, base, f, call):
+    """A direct `X._compute(arg)` skips `arg.check_keys_are(X.required_keys)`. It is redundant when the caller is the `_compute` of
+    a transform S, `arg` is S._compute's own (never reassigned) parameter — which Transform.__call__ has just checked against
+    S.required_keys — and S.required_keys equals X.required_keys for every instance of S:
+      (A) S.required_keys returns X.required_keys, or
+      (B) X ranges over the collection stored by S.__init__, whose every path compares each member's required_keys with its own
+          and raises ValueError on a difference (a loop without break/continue/return, or an any()/all() guard)."""
+    S = f.cls
+    if S is None or base not in S.mro or f.name != "_compute" or f.parent is not None:
+        return "violated", "the caller is not the _compute of a transform (nothing has checked the dictionary)"
+    params = [a.arg for a in f.node.args.args if a.arg not in ("self",)]
+    if len(call.args) != 1 or call.keywords or not isinstance(call.args[0], ast.Name) or not params or call.args[0].id != params[0]:
+        return "violated", "the argument is not the dictionary that Transform.__call__ checked (the caller's own parameter)"
+    pname = params[0]
+    for x in ast.walk(f.node):
+        if isinstance(x, ast.Name) and x.id == pname and isinstance(x.ctx, (ast.Store, ast.Del)):
+            return "undecided", f"`{pname}` is rebound inside {f.short}"
+    recv = call.func.value
+    mine = _required_keys_exprs(S)
+    # (A)
+    r = S.lookup("required_keys")
+    if r is not None:
+        rets = {norm_text(v) for v in _returns(r[1].node)}
+        if rets and rets == {norm_text(recv) + ".required_keys"}:
+            return "ok", f"(A) {S.name}.required_keys returns {norm_text(recv)}.required_keys"
+    # (B)
+    if not isinstance(recv, ast.Name):
+        return "undecided", f"{S.name}.required_keys is not defined as {norm_text(recv)}.required_keys"
+    coll = None
+    for x in ast.walk(f.node):
+        gens = x.generators if isinstance(x, (ast.ListComp, ast.GeneratorExp, ast.SetComp, ast.DictComp)) else ([x] if isinstance(x, ast.For) else [])
+        for g in gens:
+            if isinstance(g.target, ast.Name) and g.target.id == recv.id and any(y is call for y in ast.walk(x)):
+                coll = norm_text(g.iter)
+    if coll is None or not coll.startswith("self."):
+        return "undecided", f"`{recv.id}` does not range over a collection stored on the transform"
+    ini = S.lookup("__init__")
+    if ini is None:
+        return "undecided", f"{S.name} has no constructor enforcing equal required keys"
+    inode = ini[1].node
+    src_names = {coll}
+    for a in ast.walk(inode):
+        if isinstance(a, ast.Assign) and any(norm_text(t) == coll for t in a.targets):
+            v = a.value
+            if isinstance(v, ast.Call) and isinstance(v.func, ast.Name) and v.func.id in ("list", "tuple") and len(v.args) == 1:
+                v = v.args[0]
+            src_names.add(norm_text(v))
+    writes_after = [a for a in ast.walk(inode) if isinstance(a, ast.Call) and isinstance(a.func, ast.Attribute) and norm_text(a.func.value) == coll
+                    and a.func.attr in ("append", "extend", "insert", "add", "update")]
+    if writes_after:
+        return "undecided", f"{coll} is grown in place by the constructor"
+
+    def differs(test, var):
+        """`var.required_keys != <own required keys>` (either order)."""
+        if isinstance(test, ast.UnaryOp) and isinstance(test.op, ast.Not) and isinstance(test.operand, ast.Compare) and len(test.operand.ops) == 1 and isinstance(test.operand.ops[0], ast.Eq):
+            sides = {norm_text(test.operand.left), norm_text(test.operand.comparators[0])}
+        elif isinstance(test, ast.Compare) and len(test.ops) == 1 and isinstance(test.ops[0], ast.NotEq):
+            sides = {norm_text(test.left), norm_text(test.comparators[0])}
+        else:
+            return False
+        return f"{var}.required_keys" in sides and bool((sides - {f"{var}.required_keys"}) & mine)
+
+    def raises_value_error(body):
+        return any(isinstance(y, ast.Raise) and "ValueError" in norm_text(y) for y in body)
+
+    for st in inode.body:
+        if isinstance(st, ast.For) and norm_text(st.iter) in src_names and isinstance(st.target, ast.Name) and not st.orelse:
+            if any(isinstance(y, (ast.Break, ast.Continue, ast.Return)) for y in ast.walk(st)):
+                continue
+            for y in st.body:
+                if isinstance(y, ast.If) and differs(y.test, st.target.id) and raises_value_error(y.body):
+                    return "ok", f"(B) {S.name}.__init__ rejects any member of {coll} whose required_keys differ from its own (loop at line {st.lineno})"
+        if isinstance(st, ast.If) and raises_value_error(st.body) and isinstance(st.test, ast.Call) and isinstance(st.test.func, ast.Name) and st.test.func.id == "any" \
+                and len(st.test.args) == 1 and isinstance(st.test.args[0], (ast.GeneratorExp, ast.ListComp)):
+            g = st.test.args[0]
+            if len(g.generators) == 1 and not g.generators[0].ifs and isinstance(g.generators[0].target, ast.Name) and norm_text(g.generators[0].iter) in src_names \
+                    and differs(g.elt, g.generators[0].target.id):
+                return "ok", f"(B) {S.name}.__init__ rejects any member of {coll} whose required_keys differ from its own (any() guard at line {st.lineno})"
+    return "undecided", f"no constructor check of {S.name} was recognised that makes every member of {coll} require the transform's own keys"
+
+
 def check(index, ctx):
     ctx.rule("R1", "the key check cannot be bypassed: Transform.__call__ runs input.check_keys_are(self.required_keys) before self._compute on every path; check_keys_are raises ValueError "
-             "exactly when the key sets differ (decided under the five relations two symbolic sets can have); no subclass defines __call__; _compute is called nowhere else")
+             "exactly when the key sets differ (decided under the five relations two symbolic sets can have); no subclass defines __call__; _compute is called nowhere else — except, inside the _compute of a transform, on "
+             "its own checked argument for a part whose required keys provably equal the transform's own (by the definition of required_keys, or by a constructor check over all members)")
     ctx.rule("R2", "constructor rules, decided by abstract execution over symbolic key sets: Composition raises ValueError iff outer.required_keys != inner.output_keys; Conjunction raises iff "
              "some member requires different keys or two members (adjacent or not) output a common key; declared keys of both are the documented combinations")
     ctx.rule("R3", "declared = computed keys: every runtime key check executed by the real backward / mtl_backward pipelines is decided 'equal' (so each stage returned exactly its declared output keys)")
@@ -62,8 +157,6 @@ def check(index, ctx):
                 stray.append((fi, n))
     seen = set()
     stray = [(f, n) for f, n in stray if id(n) not in seen and not seen.add(id(n))]
-    ctx.require(not stray, "R1", "_compute is only called by Transform.__call__", "no direct call", "; ".join(f"{f.short}: `{norm_text(n)}`" for f, n in stray[:3]) + " calls _compute directly, skipping the key check",
-                stray[0][0].loc(stray[0][1]) if stray else base.loc())
     # scenarios for check_keys_are
     P = PipeAnalysis(index)
     P.ops.strict_atoms = True
@@ -76,6 +169,34 @@ def check(index, ctx):
         objs = [r.value for r in res if r.kind == "return"]
         return objs[0] if objs else None
 
+    def accepts_mixed_members(S):
+        """Witness search: does S([member requiring {r}, member requiring {s}]) get built?"""
+        ini = S.lookup("__init__")
+        ps = [a.arg for a in ini[1].node.args.args if a.arg != "self"] if ini else []
+        if len(ps) != 1:
+            return None
+        m1, m2 = make_select(("a",), ("r", "a", "b")), make_select(("b",), ("s", "a", "b"))
+        if m1 is None or m2 is None:
+            return None
+        res = I.run_paths(lambda: I.instantiate(S, [ListV(items=(m1, m2), kind="list")], {}, S.node, None))
+        if any(e["kind"] in ("unknown", "unknown_call") for r in res for e in r.events):
+            return None
+        return any(r.kind == "return" for r in res)
+
+    if not stray:
+        ctx.ok("R1", "_compute is only called by Transform.__call__", "no direct call", base.loc())
+    for f, n in stray:
+        verdict, why = redundant_bypass(index, base, f, n)
+        k = f"{f.short}: `{norm_text(n)}` calls _compute directly"
+        if verdict == "undecided" and f.cls is not None and accepts_mixed_members(f.cls) is True:
+            verdict, why = "violated", (f"{f.cls.name}([t1, t2]) is built although t1 requires {{r,a,b}} and t2 requires {{s,a,b}}; applied to a dictionary with t1's keys, "
+                                        f"t2._compute runs on keys it does not require and no ValueError is raised")
+        if verdict == "ok":
+            ctx.ok("R1", k + " (skipped key check is redundant)", why, f.loc(n))
+        elif verdict == "violated":
+            ctx.violated("R1", "_compute is only called by Transform.__call__", f"{f.short}: `{norm_text(n)}` calls _compute directly, skipping the key check: {why}", f.loc(n))
+        else:
+            ctx.undecided("R1", k, "the key check of Transform.__call__ is skipped and the engine could not show it redundant: " + why, f.loc(n))
     REL = {"equal": (("a",), ("a",)), "strict subset": (("a",), ("a", "b")), "strict superset": (("a", "b"), ("a",)), "overlapping": (("a", "b"), ("b", "c")), "disjoint": (("a",), ("b",))}
     from ..values import DictV
     from ..pipeops import key_tv, opaque
